@@ -687,6 +687,7 @@ def _session(scenario, idxs, threads, outdir, real_pool=False, frames=None, roun
     info["log"] = seam.log
     info["pools"] = len(seam.pools)
     info["worker_pids"] = [list(p.worker_pids) for p in seam.pools]
+    info["replacement_pids"] = [list(getattr(p, "replacement_pids", [])) for p in seam.pools]
     info["executed"] = seam.executed()
     info["task_of"] = seam.task_of()
     with open(os.path.join(outdir, "session.pkl"), "wb") as f:
@@ -951,7 +952,12 @@ def _judge(res, scenario, order, threads, alone, alone_info, info, got, k):
                 continue
             w, kth = executed[call]
             path = "pool_fresh_worker" if kth == 0 else "pool_reused_worker"
-            if rec is not None and rec["pid"] != pids[w]:
+            repl = (info.get("replacement_pids") or [[]])[0]
+            if repl:  # the pool replaced workers: the slot's process is one of them or the original
+                if rec is not None and rec["pid"] != pids[w] and rec["pid"] not in repl:
+                    raise HarnessError(f"strategy {name} ran in pid {rec['pid']}, which is no worker of the pool")
+                res.count("probe:pool_replaced_a_worker")
+            elif rec is not None and rec["pid"] != pids[w]:
                 raise HarnessError(f"strategy {name} ran in pid {rec['pid']}, scheduler assigned worker {w} (pid {pids[w]})")
         else:
             path = "inprocess_first" if j == 0 else "inprocess_later"
